@@ -261,6 +261,15 @@ def r08_4(run):
                    nb == (1 if S == 'BUILT' else 0), slot='built:%s' % S, message='state %s fires _when_built %d times' % (S, nb))
             run.ob('R08.4', cu, cu.node, 'Circuit.update[%s]: close-wait completed %s' % (S, 'once' if S in ('CLOSED', 'FAILED') else 'never'),
                    nc == (1 if S in ('CLOSED', 'FAILED') else 0), slot='closed:%s' % S, message='state %s calls maybe_call_closing_deferred %d times' % (S, nc))
+    # the close wait is completed before the (unguarded) listener fan-out of the same event: a listener that raises on the
+    # terminal event must not keep close()/when_closed() pending for ever
+    closers = g.nodes_where(lambda n: any(is_call_to(a, 'self.maybe_call_closing_deferred') for a in node_asts(n)))
+    for lp in [n for n in g.live if n.kind == 'iter' and dotted(n.ast.iter) == 'self.listeners' and
+               any(isinstance(c, ast.Call) and callee_attr(c) in ('circuit_closed', 'circuit_failed') for c in ast.walk(n.ast))]:
+        ok = any(g.dominates(c_, lp) for c_ in closers)
+        run.ob('R08.4', cu, lp.ast, 'the close wait completes before the terminal event is fanned out to listeners', ok, slot='close-before-fanout',
+               message='Circuit.update notifies the listeners of CLOSED/FAILED before completing the close wait: the loop is unguarded, so one listener that raises '
+                       '(e.g. a one-argument callback given REASON=...) leaves every pending close()/when_closed() hanging')
     su = run.idx.find_method(stream_cls(run), 'update')
     gs_ = cfg_of(su)
     for S in sorted(STREAM_ORACLE):
@@ -411,6 +420,7 @@ RULES = [
 from ..selftest import M  # noqa: E402
 FS, FT, FC = 'txtorcon/stream.py', 'txtorcon/torstate.py', 'txtorcon/circuit.py'
 MUTANTS = [
+    M('close-wait-after-fanout', 'txtorcon/circuit.py', "            flags = self._create_flags(kw)\n            self.maybe_call_closing_deferred()\n            for x in self.listeners:\n                x.circuit_failed(self, **flags)", "            flags = self._create_flags(kw)\n            for x in self.listeners:\n                x.circuit_failed(self, **flags)\n            self.maybe_call_closing_deferred()", ['R08.4']),
     M('readd-returns-early', 'txtorcon/torstate.py', "        listen = ICircuitListener(icircuitlistener)\n        for circ in self.circuits.values():", "        listen = ICircuitListener(icircuitlistener)\n        if listen in self.circuit_listeners:\n            return\n        for circ in self.circuits.values():", ['R08.3']),
     M('terminal-first-sight-dropped', 'txtorcon/torstate.py', "        circ_id = int(args[0])\n\n        c = self._maybe_create_circuit(circ_id)", "        circ_id = int(args[0])\n        if circ_id not in self.circuits and args[1] in ('CLOSED', 'FAILED'):\n            return\n\n        c = self._maybe_create_circuit(circ_id)", ['R08.7']),
     M('state-after-notify', FC, "        self.state = args[1]\n\n        kw = find_keywords(args)\n        self.flags = kw\n", "        kw = find_keywords(args)\n        self.flags = kw\n", None),
